@@ -5,6 +5,12 @@ TECH = "deterministic simulation with fault injection (seeded schedules over one
 NOTE = "Trusted: soroban-env-host 22.1 test host (auth matching, rollback, TTL, budget abort), stellar-xdr, sha3/sha2, ed25519-dalek, the harness's own models and encoders. Contracts run natively, not as wasm (tokens deployed by ITS and upgrade targets are the repository's pre-built wasm)."
 SUFFIX = " Sampling, not enumeration: a clean batch is evidence, not proof."
 props = {
+ "C04": "Seeded simulation of the token service behind a real gateway: a hub stub (independent ABI encoder) builds, has approved and delivers inbound messages, each with at most one deviation from a conforming delivery (never/otherwise approved, wrong chain/address/wrapper/type, untrusted origin, unknown token, undecodable fields, out-of-range amount, wire corruption, duplicate delivery), interleaved with trusted-chain changes; any deviation must be refused with the whole-ledger digest unchanged. One deviation (hub address never compared) is a recorded known finding.",
+ "C05": "Seeded simulation of deployments, canonical registrations, outbound transfers (burn and lock paths, boundary amounts, gas in the same or another token, Byzantine authorisation trees) and approved inbound transfers against a ledger model; custody and supply equations and every touched balance after each step; the announced payload must equal the independent ABI encoding byte for byte.",
+ "C10": "World C: the repository's codec against an independent hand-written Solidity-ABI encoder on generated messages (byte-exact encoding, round trip) and on hostile bytes (bit flips, offset/length/tag/amount edits, truncation, trailing bytes, random): never crashes, and whatever it accepts re-encodes canonically to the input. World I: corrupted payloads approved and delivered in situ. The codec part is a pure function of its input; no schedule dependence is claimed for it.",
+ "C11": "Seeded simulation of local deployments (all supply/minter combinations), canonical registrations and remote deploy messages, colliding or not, with independent derivation of salts, ids and deployed addresses; registry checked write-once after every step; each deployed token's id, metadata, owner, exact minter set and initial balance checked, and an inbound transfer to it attempted. The revoked service-minter case is a recorded known finding.",
+ "C18": "Seeded simulation of remote deployment requests (own and foreign salts, canonical and unregistered tokens, trusted/untrusted/removed destinations, probe tokens with boundary metadata, gas 0/negative/affordable/unaffordable, payer authorisation trees) against the model; the announced payload must equal the independent encoding of the deploy message with the token's actual metadata and no minter; only the gas payment may move funds.",
+
  "C01": "Seeded simulation of the real gateway under forged, tampered and misdelivered proofs (other domain, command, batch, set; per-signature corruption; declared-set tampering) and under honest proofs from arbitrary sufficient subsets; an independent XDR/Keccak/Ed25519 oracle decides every submission; refused submissions must leave the ledger digest unchanged.",
  "C02": "Seeded simulation over interleavings of approvals (batched, with duplicates), consumptions, deliveries, status queries, duplicated and aborted submissions, judged against a status-map model; per-id exactly-once and monotone-status history checks; quiescent tail drains every approved message.",
  "C03": "Seeded simulation of rotations and constructions with malformed/duplicate candidates and proofs from latest/old/unknown sets; epoch and both lookups checked mutually inverse after every step; failed calls must leave the ledger digest unchanged (epoch, lookups, rotation clock).",
